@@ -52,7 +52,7 @@ def meta_maker(rng, counter):
         k = rng.choice(["meta", "dep", "dep", "headc"])
         counter[0] += 1
         if k == "meta":
-            out.append({"k": "meta", "repr": True} if rng.random() < 0.3 else {"k": "meta"})
+            out.append({"k": "meta", "repr": True} if rng.random() < 0.3 else {"k": "meta", "resource": True} if rng.random() < 0.3 else {"k": "meta"})
         elif k == "dep":
             d = {"k": "dep", "name": rng.choice(["da", "db", "dc", "dd"]), "version": rng.choice(["1.0", "1.9", "1.10", "2.0"]),
                  "script": [{"src": "s%d.js" % counter[0]}]}
